@@ -1346,7 +1346,9 @@ func (m *Monitor) onReply(ev *Event) {
 		if r.ROK && !req.Prevote {
 			m.Counts["votes_granted"]++
 			// C08 (5): the vote is on disk before the reply exists
-			if !(n.pSet && n.pTerm == r.RTerm && n.pVote == req.Leader) {
+			// (the stored state may have moved on to a later term by the time the reply is observed: what counts
+			// is that a completed write of exactly this vote precedes the reply)
+			if !(n.pSet && n.pTerm == r.RTerm && n.pVote == req.Leader) && !(n.pSet && n.pTerm > r.RTerm && n.voteByTerm[r.RTerm] == req.Leader) {
 				m.violate(ev, []string{"C08", "C02"}, "vote-not-persisted", n.ID, "node %s granted its vote for term %d to %s but its stored state is (term %d, vote %q)", n.ID, r.RTerm, req.Leader, n.pTerm, n.pVote)
 			}
 			if prev := n.voteByTerm[req.Term]; prev != "" && prev != req.Leader {
